@@ -277,7 +277,16 @@ func (db *CacheDB) CreateBucket(name []byte) (DBBucket, error) {
 	return db.mem.CreateBucket(name)
 }
 
-// Flush implements DB.
+// resetKVs empties the sort buffers.
+func (db *CacheDB) resetKVs() {
+	for name := range db.kvs {
+		clear(db.kvs[name])
+		db.kvs[name] = db.kvs[name][:0]
+	}
+}
+
+// Flush implements DB. If the underlying DB refuses a write, the flush stops
+// and nothing is committed.
 func (db *CacheDB) Flush() error {
 	// puts
 	for name, puts := range db.mem.puts {
@@ -296,7 +305,10 @@ func (db *CacheDB) Flush() error {
 			return bytes.Compare(kvs[i][0], kvs[j][0]) < 0
 		})
 		for _, kv := range kvs {
-			bucket.Put(kv[0], kv[1])
+			if err := bucket.Put(kv[0], kv[1]); err != nil {
+				db.resetKVs()
+				return err
+			}
 		}
 	}
 	// remove references
@@ -319,7 +331,10 @@ func (db *CacheDB) Flush() error {
 			return bytes.Compare(kvs[i][0], kvs[j][0]) < 0
 		})
 		for _, kv := range kvs {
-			bucket.Delete(kv[0])
+			if err := bucket.Delete(kv[0]); err != nil {
+				db.resetKVs()
+				return err
+			}
 		}
 	}
 	for name := range db.kvs {
